@@ -63,6 +63,18 @@ UNSIZED_ACCEPTED = [(traits, '#[%s]' % attr, shape)
                     for shape in ('struct X(u8, %s str);', 'struct X { a: u8, %s b: str }')]
 
 
+# accepted: a more specific attribute that carries ONLY a `bound(..)` (no `..` in it) next to a less specific one with the
+# customisation - the bound list ends the search for BOUNDS, not the search for `key` / `by`
+BOUND_ONLY_ACCEPTED = [
+    ('Eq, PartialEq', 'pub struct X { #[partial_eq(bound())] #[eq(key = $.0)] pub a: (u8, u8) }'),
+    ('PartialEq, PartialOrd', 'pub struct X(#[partial_ord(bound())] #[ord(by = by_ord)] pub u8);'),
+    ('Eq, PartialEq, Hash', 'pub enum X { A(#[eq(bound())] #[ord(key = $ % 3)] u8), B }'),
+    ('Ord, PartialOrd, Eq, PartialEq, Hash', 'pub struct X<T: Copy>(#[partial_ord(bound(T: Copy))] #[eq(bound(T: Copy))] #[hash(bound())] #[ord(key = 1u8)] pub T);'),
+    ('PartialEq', 'pub struct X<T>(#[partial_eq(bound(T: Copy))] #[partial_ord(by = |_, _| None)] pub T);'),
+    ('Hash, PartialEq', 'pub struct X(#[hash(bound())] #[eq(key = $ / 2)] pub u8, pub u8);'),
+]
+
+
 class C05(Prop):
     pid = 'C05'
     tag = 'which requested traits expand to compile_error! (and the messages), which to impls'
@@ -249,9 +261,10 @@ class C05(Prop):
             def input_text(self):
                 return self.text
         lits = []
-        for k, (traits, attr, shape) in enumerate(UNSIZED_ACCEPTED):
-            text = '#[derive_ex(%s)] %s' % (traits, shape % attr)
-            src = ['#[::derive_ex::derive_ex(%s)]\npub %s' % (traits, shape % attr)]
+        for k, (traits, attr, shape) in enumerate(UNSIZED_ACCEPTED + [(t, None, d) for t, d in BOUND_ONLY_ACCEPTED]):
+            decl = ('pub ' + shape % attr) if attr is not None else shape
+            text = '#[derive_ex(%s)] %s' % (traits, decl)
+            src = [('#[::derive_ex::derive_ex(%s)]\n' if k % 2 else '#[derive(::derive_ex::Ex)]\n#[derive_ex(%s)]\n') % traits + decl]
             tr = [t.strip() for t in traits.split(',')]
             if ('Eq' in tr or 'PartialOrd' in tr or 'Ord' in tr) and 'PartialEq' not in tr:
                 src.append('impl PartialEq for X { fn eq(&self, _: &Self) -> bool { true } }')
@@ -267,7 +280,7 @@ class C05(Prop):
                 validated += 1
             else:
                 failures.append(dict(**{'class': 'accepted-combination-does-not-compile', 'mode': 'rustc-unsized'},
-                                     input=mo.meta.input_text(), expected='compiles (the field is the unsized tail of the struct)',
+                                     input=mo.meta.input_text(), expected='compiles (a combination the documentation allows' + (' - here on the unsized tail of the struct)' if 'str' in mo.meta.input_text() else ')'),
                                      observed=[d['message'] for d in mo.diags if d['level'] == 'error'][:4]))
         l2.cleanup('c05unsized')
         mods = mods + lits
